@@ -93,7 +93,7 @@ func (*Watermark).sendWatermarkLocked
   ensures monotone: wm.lastSentWatermark >= old(wm.lastSentWatermark)
 
 func (*Watermark).UpdateEventTime
-  props C01 C02
+  props C01 C02 C08 C10
   acquires wm.mu
   modifies wm.lastEventTime, wm.maxEventTime, wm.currentWatermark, wm.lastSentWatermark, ghost(sends)
   ensures monotone: wm.currentWatermark >= old(wm.currentWatermark)
@@ -104,7 +104,7 @@ func (*Watermark).UpdateEventTime
   ensures inv: wmInv(wm)
 
 func (*Watermark).update
-  props C02
+  props C02 C01 C08 C10
   acquires wm.mu
   modifies wm.currentWatermark, wm.lastSentWatermark, ghost(sends)
   ensures monotone: wm.currentWatermark >= old(wm.currentWatermark)
